@@ -61,11 +61,9 @@ func ruleOU2(c *Ctx) {
 					callsErgo = true
 					continue
 				}
-				nme := calleeFullName(&cl.Call)
-				if nme == "errors.New" || nme == "fmt.Errorf" {
-					continue
-				}
-				bad = "returns the result of " + nme
+				// any other call's error handed back is still a failure of the command (a pre-run hook returning
+				// os.Chdir's error, a flag parser's error): propagation, not loss
+				_ = calleeFullName(&cl.Call)
 			}
 		}
 		// dropped errors: a call into internal/ergo returning error whose result is unused
@@ -756,4 +754,178 @@ func arithDerives(v, src ssa.Value) bool {
 		return false
 	}
 	return walk(v, 0)
+}
+
+// ------------------------------------------------------------------ OU11
+
+func init() {
+	register(&Rule{ID: "OU11", Min: 3, Run: ruleOU11,
+		Doc: "repeat-count-nonnegative: the count handed to strings.Repeat in the renderers is provably not negative (a constant, a length, a sum of such, a value clamped by `if x < k { x = k }` / max(x, k), or used only on the branch where it was compared positive): a negative count panics, and a panic in list/show on an unusual but valid log (a very long id, a narrow terminal) breaks 'every command terminates with output or an error message'"})
+}
+
+type nonNegCtx struct {
+	c     *Ctx
+	f     *ssa.Function
+	facts []branchFact
+	seen  map[ssa.Value]bool
+}
+
+// edgesEstablishing: edges on which a comparison of v with a constant implies v >= 0.
+func (n *nonNegCtx) edgesEstablishing(v ssa.Value) map[edge]bool {
+	out := map[edge]bool{}
+	for _, bf := range n.facts {
+		a := bf.A
+		if a.Kind != "cmp" || a.Y == nil {
+			continue
+		}
+		x, y, op := a.X, a.Y, a.Op
+		if x != v && y == v {
+			// k OP v  ==  v OP' k
+			x, y = y, x
+			switch op {
+			case token.LSS:
+				op = token.GTR
+			case token.LEQ:
+				op = token.GEQ
+			case token.GTR:
+				op = token.LSS
+			case token.GEQ:
+				op = token.LEQ
+			}
+		}
+		if x != v {
+			continue
+		}
+		k, isConst := constInt(y)
+		kNonNeg := isConst && k >= 0
+		if !isConst {
+			kNonNeg = n.nonNeg(y, nil)
+		}
+		holds := bf.Holds
+		ok := false
+		switch op {
+		case token.GEQ: // v >= k
+			ok = holds && kNonNeg
+		case token.GTR: // v > k
+			ok = holds && (kNonNeg || (isConst && k >= -1))
+		case token.LSS: // !(v < k)  =>  v >= k
+			ok = !holds && kNonNeg
+		case token.LEQ: // !(v <= k) =>  v > k
+			ok = !holds && (kNonNeg || (isConst && k >= -1))
+		}
+		if ok {
+			out[bf.E] = true
+		}
+	}
+	return out
+}
+
+// nonNeg: v is not negative wherever it is used in block at (nil: anywhere).
+func (n *nonNegCtx) nonNeg(v ssa.Value, at *ssa.BasicBlock) bool {
+	if v == nil {
+		return false
+	}
+	if k, ok := constInt(v); ok {
+		return k >= 0
+	}
+	if n.seen[v] {
+		return true // loop-carried: decided by the other edges
+	}
+	n.seen[v] = true
+	defer delete(n.seen, v)
+	if at != nil {
+		if es := n.edgesEstablishing(v); len(es) > 0 && mustPassEdges(n.f, at, es) {
+			return true
+		}
+	}
+	switch x := v.(type) {
+	case *ssa.Call:
+		name := calleeFullName(&x.Call)
+		switch name {
+		case "builtin len", "builtin cap", "unicode/utf8.RuneCountInString", "unicode/utf8.RuneCount":
+			return true
+		case "builtin max":
+			for _, a := range x.Call.Args {
+				if n.nonNeg(a, at) {
+					return true
+				}
+			}
+			return false
+		case "builtin min":
+			for _, a := range x.Call.Args {
+				if !n.nonNeg(a, at) {
+					return false
+				}
+			}
+			return true
+		}
+		if cal := calleeOf(&x.Call); cal != nil && (cal.Name() == "visibleLen" || strings.HasSuffix(name, "runewidth.StringWidth")) {
+			return true
+		}
+		return false
+	case *ssa.BinOp:
+		switch x.Op {
+		case token.ADD, token.MUL:
+			return n.nonNeg(x.X, at) && n.nonNeg(x.Y, at)
+		case token.QUO, token.REM:
+			return n.nonNeg(x.X, at) && n.nonNeg(x.Y, at)
+		}
+		return false
+	case *ssa.Phi:
+		for i, e := range x.Edges {
+			pred := x.Block().Preds[i]
+			if n.nonNeg(e, pred) {
+				continue
+			}
+			// established on the very edge pred -> phi block
+			okEdge := false
+			for ed := range n.edgesEstablishing(e) {
+				if ed.From == pred && ed.To() == x.Block() {
+					okEdge = true
+				}
+			}
+			if !okEdge {
+				return false
+			}
+		}
+		return true
+	case *ssa.Convert:
+		return n.nonNeg(x.X, at)
+	case *ssa.UnOp:
+		if x.Op == token.MUL {
+			if cell := cellOf(x.X); cell != nil {
+				sts := cellStores(cell)
+				if len(sts) == 0 {
+					return false
+				}
+				for _, st := range sts {
+					if !n.nonNeg(st.Val, st.Block()) {
+						return false
+					}
+				}
+				return true
+			}
+		}
+	}
+	return false
+}
+
+func ruleOU11(c *Ctx) {
+	cnt := map[*ssa.Function]int{}
+	for _, f := range c.Fns {
+		if Outermost(f).Pkg != c.Ergo {
+			continue
+		}
+		reps := callsNamed(f, "strings.Repeat")
+		if len(reps) == 0 {
+			continue
+		}
+		nn := &nonNegCtx{c: c, f: f, facts: directFacts(f), seen: map[ssa.Value]bool{}}
+		for _, rep := range reps {
+			cnt[f]++
+			v := rep.Common().Args[1]
+			c.check(nn.nonNeg(v, rep.Block()), c.Name(f), fmt.Sprintf("repeat-count#%d", cnt[f]), c.Pos(rep.Pos()), "the repeat count is not negative",
+				"the count of this strings.Repeat ("+c.canon(v)+") is not provably non-negative: with an id or prefix wider than the computed column (a long id in a merged log, a narrow terminal) it goes negative and the command panics instead of printing")
+		}
+	}
 }
